@@ -72,7 +72,7 @@ def ensure_static_build(timeout: int = 1500) -> tuple[bool, str]:
 def coqc(vfile: Path, workdir: Path, timeout: int = 600) -> tuple[bool, str, float]:
     """Compile one generated/tie/props file living in `workdir` (logical root `G`)."""
     t0 = time.time()
-    cmd = ["timeout", str(timeout), "coqc", "-Q", str(COQ), "ND", "-Q", str(workdir), "G", str(vfile)]
+    cmd = ["timeout", str(timeout), "coqc", "-noglob", "-Q", str(COQ), "ND", "-Q", str(workdir), "G", str(vfile)]
     r = subprocess.run(cmd, cwd=workdir, capture_output=True, text=True)
     return r.returncode == 0, r.stdout + r.stderr, time.time() - t0
 
